@@ -3,7 +3,8 @@
 # usage: try_seed.sh <seeded/id> <check args...>
 S=$1; shift
 cd /repo && git diff --quiet || { echo "/repo has uncommitted changes"; exit 2; }
-git -C /repo apply "$S/patch.diff" || { echo "patch does not apply"; exit 2; }
+P="$S/patch.diff"; [ -f "$S/patch.rebased.diff" ] && P="$S/patch.rebased.diff"
+git -C /repo apply "$P" || { echo "patch does not apply"; exit 2; }
 cd /verif && ./check "$@" --no-evidence; rc=$?
 git -C /repo checkout -- .
 echo "try_seed exit=$rc"
